@@ -1,6 +1,7 @@
 import PW.Props.C01
 import PW.Proofs.SpecLemmas
 import PW.Proofs.Grid
+import PW.Proofs.Channels
 /-!
 # C09 — POVM measurement: probabilities and post-state
 
@@ -11,6 +12,7 @@ order (C01 theorem).
 -/
 namespace PW.Props.C09
 open PW PW.Spec
+open scoped ComplexOrder Matrix
 
 variable {R : Type} [CommRing R] [StarRing R]
 
@@ -37,8 +39,22 @@ theorem trace_add (dims : List Nat) (ρ σ : Tensor R) :
   unfold trace
   exact sumGrid_add dims (fun i => ρ (i ++ i)) (fun i => σ (i ++ i))
 
+/-- the weights of a complete set of measurement operators add up to the trace of the state -/
+theorem povm_weights_complete {a b ι : Type} [Fintype a] [Fintype b] [DecidableEq a] [DecidableEq b]
+    (s : Finset ι) (M : ι → Matrix a a ℂ) (hM : ∑ i ∈ s, (M i)ᴴ * M i = 1) (ρ : Matrix (a × b) (a × b) ℂ) :
+    ∑ i ∈ s, Matrix.trace (PW.Channels.emb (M i) * ρ * (PW.Channels.emb (M i))ᴴ) = Matrix.trace ρ :=
+  PW.Channels.povm_weights_sum s M hM ρ
+
+/-- each weight is a non-negative real: they form a probability distribution -/
+theorem povm_weight_nonnegative {a b : Type} [Fintype a] [Fintype b] [DecidableEq a] [DecidableEq b]
+    (M : Matrix a a ℂ) (ρ : Matrix (a × b) (a × b) ℂ) (hρ : ρ.PosSemidef) :
+    0 ≤ Matrix.trace (PW.Channels.emb (b := b) M * ρ * (PW.Channels.emb M)ᴴ) :=
+  PW.Channels.povm_weight_nonneg M ρ hρ
+
 end PW.Props.C09
 
 #print axioms PW.Props.C09.povm_post_state_plan
 #print axioms PW.Props.C09.scaled_trace
 #print axioms PW.Props.C09.trace_add
+#print axioms PW.Props.C09.povm_weights_complete
+#print axioms PW.Props.C09.povm_weight_nonnegative
